@@ -225,8 +225,9 @@ def sql_stage(ctx: Ctx, live, tag="C10"):
                 if tr is None:
                     continue
                 thrq = Fr(case["me_thr"]) if (ph == "missing_edges" and case["me_thr"] is not None) else None
-                aj = "None" if tr["anti_join"] is None else f"(Some {tr['anti_join']})"
-                txt = f"({PHASES.index(ph)}%nat, {t_term(spec, tr, thrq)}, {tr['outer_where']}, {aj})"
+                aj = "(@None (option (jbx * jbx)))" if tr["anti_join"] is None else f"(Some {tr['anti_join']})"
+                ow = "(@None (cmpop * Q))" if tr["outer_where"] == "None" else tr["outer_where"]
+                txt = f"({PHASES.index(ph)}%nat, {t_term(spec, tr, thrq)}, {ow}, {aj})"
                 if txt not in seen:
                     seen.add(txt)
                     entries.append((ph, txt))
